@@ -1348,7 +1348,7 @@ func replayLayout(repro map[string]any) (string, bool) {
 func replay(repro map[string]any) (string, bool) {
 	space, _ := repro["space"].(string)
 	switch {
-	case strings.HasPrefix(space, "layout") || space == "error-lines":
+	case strings.HasPrefix(space, "layout") || space == "error-lines" || space == "comment-contents":
 		return replayLayout(repro)
 	case space == "enumerator-selfcheck":
 		return "self check of the enumerator", true
